@@ -258,6 +258,50 @@ pub fn run(ctx: &Ctx) -> Report {
             rep.violation(s, d, c);
         }
     }
+    // environment deviation: one write call of the sink answers EINTR (io::ErrorKind::Interrupted); write_all retries it
+    let short_txts2: Vec<Vec<&'static str>> = txts.iter().filter(|t| t.len() <= 3).cloned().collect();
+    let res: Vec<(u64, Option<(String, String, Value)>)> = all
+        .par_iter()
+        .map(|s| {
+            let pat = format!("{{m{}}}|{{l{}}}", s.syntax(), s.syntax());
+            let enc = match catch_panic(|| PatternEncoder::new(&pat)) {
+                Ok(e) => e,
+                Err(_) => return (0, None),
+            };
+            let undetermined = matches!((s.min, s.max), (Some(a), Some(b)) if a > b);
+            let mut n = 0;
+            for t in &short_txts2 {
+                let whole: String = t.concat();
+                let want = format!("{}|{}", s.apply(&whole), s.apply("INFO"));
+                for lim in [None, Some(2usize)] {
+                    for k in 0..6usize {
+                        n += 1;
+                        let mut sink = Sink::new(lim);
+                        sink.interrupt_at = Some(k);
+                        let r = catch_panic(|| enc.encode(&mut sink, &Record::builder().level(Level::Info).target("t").args(format_args!("{}", whole)).build()));
+                        let case = || json!({"pattern": pat, "pieces": [whole, "", ""], "sink_limit": lim, "interrupt_at_write": k});
+                        match r {
+                            Err(p) => return (n, Some((format!("eintr:panic:{}", panic_site(&p)), p, case()))),
+                            Ok(Err(e)) => return (n, Some(("eintr:encode-error".into(), e.to_string(), case()))),
+                            Ok(Ok(())) => {
+                                if !undetermined && sink.buf != want.as_bytes() {
+                                    return (n, Some(("eintr:width-law".into(), format!("pattern {:?} text {:?} with write #{} interrupted once: output {:?}, law says {:?}", pat, whole, k, String::from_utf8_lossy(&sink.buf), want), case())));
+                                }
+                            }
+                        }
+                    }
+                }
+            }
+            (n, None)
+        })
+        .collect();
+    for (n, m) in res {
+        rep.add("evaluations", n);
+        rep.add("interrupted_write_evaluations", n);
+        if let Some((sg, d, c)) = m {
+            rep.violation(sg, d, c);
+        }
+    }
     rep.set("single_specs", all.len() as u64);
     rep.set("texts", txts.len() as u64);
     // (2) nested pairs
